@@ -31,6 +31,7 @@ CLAIM = {
 }
 
 HISTORY = []
+DEPTH = 80
 _REGISTERED = []
 
 
@@ -125,8 +126,16 @@ def fmt(n, adj, request):
 def execute(n, adj, request, via):
     """Run the real runner; returns (kind, detail, history) with kind in ok / loop / exc."""
     from ppci.build.tasks import TaskRunner, TaskError
+    import sys
     del HISTORY[:]
     nm = names(n)
+    # A correct runner recurses at most a few frames per target (n <= 5).  Unbounded recursion (a missed loop) is cut off
+    # at DEPTH extra frames instead of 1000: same RecursionError, but cheap enough to hit on a million configurations.
+    old_limit = sys.getrecursionlimit()
+    depth, fr = 0, sys._getframe()
+    while fr is not None:
+        depth, fr = depth + 1, fr.f_back
+    sys.setrecursionlimit(depth + DEPTH)
     try:
         if via == "api":
             import io
@@ -138,6 +147,8 @@ def execute(n, adj, request, via):
         return "loop", ex, list(HISTORY)
     except Exception as ex:  # noqa
         return "exc", ex, list(HISTORY)
+    finally:
+        sys.setrecursionlimit(old_limit)
     return "ok", None, list(HISTORY)
 
 
@@ -159,7 +170,10 @@ def check_config(p, n, adj, request, via="direct"):
     if any(a != b for a, b in hist):
         p.violation("task/wrong-arguments", "%s: a task ran with the arguments of another target: %r" % (desc, hist), wit, order=order)
     if kind == "exc":
-        p.violation(exc_key("run" + ("/cyclic" if cyclic else ""), detail), "%s: TaskRunner.run raised %r (expected %s)" % (
+        prefix = "run" + ("/cyclic" if cyclic else "")
+        # (a RecursionError has a 1000-frame traceback; walking it for every configuration would dominate the run)
+        key = prefix + "/RecursionError" if isinstance(detail, RecursionError) else exc_key(prefix, detail)
+        p.violation(key, "%s: TaskRunner.run raised %r (expected %s)" % (
             desc, detail, "a TaskError loop report" if cyclic else "execution of " + ",".join(nm[i] for i in range(n) if r >> i & 1)), wit, order=order)
         return len(hist)
     if cyclic:
